@@ -33,7 +33,7 @@ ASSUMPTIONS = [
     "complex variance = E|x-mean|^2 * n/(n-1) (numpy convention) is what 'unbiased variance' means for complex outputs",
 ]
 
-NS = [1, 2, 3, 5]
+NS = [1, 2, 3, 5, 11]   # 11: sample index with two digits (file-name pattern)
 
 
 def _dom(multi):
